@@ -64,12 +64,21 @@ def gen_vmx(rng):
     out = []
     rng.shuffle(entries)
     for k, v in entries:
-        if rng.random() < 0.15:
-            out.append((k, "STALE-" + v))
-        out.append((k, v))
+        if rng.random() < 0.2:
+            # one to three earlier (stale) assignments in varying spellings; the last assignment may well reuse the
+            # spelling of the first one (X, Y, X): it is still the last one that counts
+            spell = [k, k.upper(), k.lower(), k.title()]
+            rng.shuffle(spell)
+            nst = rng.choice([1, 1, 2, 3])
+            seq = [spell[j % 2] for j in range(nst + 1)] if rng.random() < 0.6 else [rng.choice(spell) for _ in range(nst + 1)]
+            for j in range(nst):
+                out.append((k, f"STALE{j}-" + v, seq[j]))
+            out.append((k, v, seq[nst]))
+        else:
+            out.append((k, v, None))
     lines = []
-    for k, v in out:
-        key = rng.choice([k, k, k.lower(), k.upper(), k.title()]) if not k.startswith(".") else k
+    for k, v, forced in out:
+        key = (forced or rng.choice([k, k, k.lower(), k.upper(), k.title()])) if not k.startswith(".") else k
         style = rng.random()
         if style < 0.7:
             ln = f'{key} = "{v}"'
@@ -98,12 +107,12 @@ def gen_ovf(rng, doctype: str = "", lead: str = ""):
     idch = "ovf:disk12file_-."
     files = {}
     while len(files) < nfiles:
-        fid = rng.choice(["file", "ovffile", "f", "o", "vf", "ffo"]) + "".join(rng.choice(idch.replace(":", "")) for _ in range(rng.randrange(0, 6)))
+        fid = rng.choice(["file", "ovffile", "f", "o", "vf", "ffo"]) + "".join(rng.choice(idch if rng.random() < 0.3 else idch.replace(":", "")) for _ in range(rng.randrange(0, 6)))
         files[fid] = fname(rng, ".vmdk")
     disks = {}
     for fid in list(files):
         if rng.random() < 0.8:
-            did = rng.choice(["vmdisk", "ovfdisk", "disk", "d", "o", "v", "f"]) + "".join(rng.choice("0123456789abov") for _ in range(rng.randrange(0, 5)))
+            did = rng.choice(["vmdisk", "ovfdisk", "disk", "d", "o", "v", "f"]) + "".join(rng.choice("0123456789abov:" if rng.random() < 0.3 else "0123456789abov") for _ in range(rng.randrange(0, 5)))
             if did not in disks:
                 disks[did] = fid
     items = []
@@ -252,4 +261,6 @@ ENTITY_REF = {"internal-used": "&a;", "bomb": "&e8;", "ext-general-file": "&x;",
 LEADS = ["", "<!-- exported by a tool -->\n", '<?xml-stylesheet type="text/xsl" href="s.xsl"?>\n', "\n\n   \n", "<!-- a --><!-- b -->\n<?pi x?>\n",
          # long prologs: nothing bounds what may precede the DOCTYPE (licence banners, runs of PIs, blank padding)
          "<!-- " + "licence text " * 400 + "-->\n", "<?pi " + "x" * 60 + "?>\n" * 1 + "<?note y?>\n" * 900, " " * 5000 + "\n" * 3000,
-         "<!-- " + "z" * 70000 + " -->\n"]
+         "<!-- " + "z" * 70000 + " -->\n",
+         # the text "<!ENTITY" where it is not a declaration (commented-out DOCTYPE, processing instruction): nothing is declared
+         '<!-- <!DOCTYPE x [<!ENTITY a "b">]> -->\n', '<?editor note="<!ENTITY a SYSTEM \'file:///etc/passwd\'>"?>\n']
